@@ -137,16 +137,32 @@ func StateCB(tr *memnet.Trace, conn int, extra func(mqtt.ConnState, error)) func
 func NewBase(tr *memnet.Trace, peer memnet.Peer) (*mqtt.BaseClient, *memnet.Conn) {
 	conn := tr.NewConn(peer)
 	cli := &mqtt.BaseClient{Transport: conn}
-	cli.ConnState = StateCB(tr, conn.ID, nil)
+	// like an application's callback, ours looks at the client it is told about
+	cli.ConnState = StateCB(tr, conn.ID, func(mqtt.ConnState, error) {
+		_ = cli.Err()
+		_ = cli.Done()
+	})
 	return cli, conn
 }
+
+// ErrConnectHung is returned by ConnectBase when Connect has not returned although its context expired long ago.
+var ErrConnectHung = errors.New("scen: Connect did not return although its context had expired a watchdog ago")
 
 // ConnectBase connects cli and fails loudly if that does not work (harness precondition).
 func ConnectBase(cli *mqtt.BaseClient, opts ...mqtt.ConnectOption) error {
 	ctx, cancel := context.WithTimeout(context.Background(), Watchdog)
 	defer cancel()
-	_, err := cli.Connect(ctx, "verif", opts...)
-	return err
+	res := make(chan error, 1)
+	go func() {
+		_, err := cli.Connect(ctx, "verif", opts...)
+		res <- err
+	}()
+	select {
+	case err := <-res:
+		return err
+	case <-time.After(2 * Watchdog):
+		return ErrConnectHung
+	}
 }
 
 // Barrier sends a Ping that the scripted peer answers (AutoPing must be on).
